@@ -180,13 +180,14 @@ impl C05 {
     fn run_prefix(&self, l: L, titles: &Titles, idx: u64, cx: &mut Cx) {
         let title = titles.get(idx);
         let Some(tok) = tok_record(l, &title) else { return };
+        let recs = vec![rec(10, &title, 5)];
+        let Some(mut st) = cx.build_noted(l, &recs, None, Some((SENT_LS, SENT_RS))) else { return };
+        cx.state();
+        self.run_prefix_as_spelt(l, &title, &recs, &mut st, cx);
         if tok.words.len() != 1 {
             cx.skip_pre();
             return;
         }
-        let recs = vec![rec(10, &title, 5)];
-        let Some(mut st) = cx.build_noted(l, &recs, None, Some((SENT_LS, SENT_RS))) else { return };
-        cx.state();
         let s = tok.words[0].slice;
         let chars = &tok.chars[s.0..s.1];
         let source = &tok.source[s.0..s.1];
@@ -236,9 +237,12 @@ impl C05 {
                 });
             }
         }
-        // The same clause stated on the text the user sees, with nothing taken from the tokeniser but "it is one word":
-        // a title made of letters and digits only, typed character by character as it is spelt, is highlighted
-        // exactly as far as it was typed.
+    }
+
+    /// The exact-prefix clause stated on the text the user sees, with NOTHING taken from the tokeniser: a title made of
+    /// letters and digits only is one word by the specification of separators (white space, control, punctuation), and
+    /// typed character by character as it is spelt it must be highlighted exactly as far as it was typed.
+    fn run_prefix_as_spelt(&self, l: L, title: &str, recs: &[Rec], st: &mut St, cx: &mut Cx) {
         let raw: Vec<char> = title.chars().collect();
         if raw.is_empty() || !raw.iter().all(|c| c.is_alphanumeric()) {
             return;
@@ -246,7 +250,7 @@ impl C05 {
         for k in 1..=raw.len() {
             let q: String = raw[..k].iter().collect();
             cx.eval();
-            let hits = match cx.search(&mut st, &q) {
+            let hits = match cx.search(st, &q) {
                 Ok(h) => h,
                 Err(p) => {
                     cx.undecided(&p, || format!("lang={} title={:?} query={:?}", l.tag(), title, q));
@@ -267,8 +271,8 @@ impl C05 {
                 cx.class(if k < raw.len() { "as-spelt:proper-prefix" } else { "as-spelt:whole-word" });
             } else {
                 cx.fail("C05:exact-prefix-highlight-as-spelt", || {
-                    json!({"lang": l.tag(), "ops": ops_json(&recs, None, Some((SENT_LS, SENT_RS)), &[&q]), "expected_highlighted_text": q, "observed_title": got,
-                           "unit_test": unit_test_body(l, &recs, None, Some((SENT_LS, SENT_RS)), &[&q], &format!("    // expected exactly one span covering the {} typed characters; observed {}\n", k, lit(got)))})
+                    json!({"lang": l.tag(), "ops": ops_json(recs, None, Some((SENT_LS, SENT_RS)), &[&q]), "expected_highlighted_text": q, "observed_title": got,
+                           "unit_test": unit_test_body(l, recs, None, Some((SENT_LS, SENT_RS)), &[&q], &format!("    // expected exactly one span covering the {} typed characters; observed {}\n", k, lit(got)))})
                 });
             }
         }
